@@ -215,6 +215,22 @@ def suite(outdir, k, n):
     subprocess.check_call(["git", "-C", wt, "checkout", "-q", "--", "."])
 
 
+# which checks to try first, by file of the mutant
+ORDER = {
+    "config.go": ["C05", "C04", "C06", "C15", "C02", "C16", "C08"],
+    "middleware.go": ["C16", "C09", "C11", "C02", "C10", "C03", "C07", "C17"],
+    "cfgerrors": ["C19", "C05"],
+    "internal/headers/acrh.go": ["C14", "C02"],
+    "internal/headers/ows.go": ["C14", "C02"],
+    "internal/headers": ["C05", "C04", "C11", "C17"],
+    "internal/methods": ["C05", "C04", "C02"],
+    "internal/origins/origins.go": ["C03", "C01", "C13", "C17"],
+    "internal/origins/pattern.go": ["C13", "C05", "C04", "C01"],
+    "internal/origins/radix.go": ["C01", "C06", "C12"],
+    "internal/util": ["C15", "C14", "C05", "C02"],
+}
+
+
 def checks(outdir, k, n):
     wt = worktree(outdir, k)
     surv = []
@@ -234,7 +250,12 @@ def checks(outdir, k, n):
         subprocess.check_call(["git", "-C", wt, "checkout", "-q", "--", "."])
         subprocess.check_call(["git", "-C", wt, "apply", os.path.join(outdir, m + ".diff")])
         caught, odd = [], []
-        for p in ids:
+        desc0 = open(os.path.join(outdir, m + ".txt")).read()
+        first = next((v for k, v in ORDER.items() if desc0.startswith(k)), [])
+        order = first + [i for i in ids if i not in first]
+        for p in order:
+            if caught and os.environ.get("AUTOMUT_ALL") != "1":
+                break  # census question is caught / not caught; AUTOMUT_ALL=1 runs every check regardless
             r = subprocess.run([os.path.join(verif, "check"), p, "quick"], cwd=verif, env=dict(os.environ, VERIF_REPO=wt, VERIF_PAR=os.environ.get("VERIF_PAR", "8")),
                                stdout=subprocess.PIPE, stderr=subprocess.STDOUT)
             if r.returncode == 1:
